@@ -14,9 +14,10 @@ ID = "C03"
 SIBLING = {"ideal_iso": "ideal_noniso", "nonideal_iso": "nonideal_noniso"}
 
 
-def cross_model(setup, case, tr):
-    """step 0 of the sibling non-isothermal model must report the same fluxes and heats."""
-    sib = traces.Setup(dict(case, kind=SIBLING[setup.kind], steps=1))
+def cross_model(setup, case, tr, prog="none"):
+    """step 0 of the sibling non-isothermal model (self-cooling, or under a temperature programme whose value at t = 0
+    differs from the stated initial temperature) must report the same fluxes and heats."""
+    sib = traces.Setup(dict(case, kind=SIBLING[setup.kind], steps=1, prog=prog))
     st, pm = sib.run()
     if st != "ok":
         return [], 0  # the sibling may legitimately raise (self-cooling below 0 K in one coarse step): not judged
@@ -59,6 +60,10 @@ def judge(case):
     if not v and setup.kind in SIBLING and setup.prog == "none":
         v2, extra = cross_model(setup, case, tr)
         v.extend(v2)
+        if not v:
+            v3, e3 = cross_model(setup, case, tr, prog="poly3" if abs(setup.t0 - 318.15) > 1 else "exp3")
+            v.extend(v3)
+            extra += e3
     return core.result("returned", digest=traces.trace_digest(tr), viol=v, states=tr["n"] + extra,
                        transitions=max(tr["n"] - 1, 0) + extra, traces=1 + extra, cross_model=extra,
                        sample={"T": tr["T"][:3], "Q": tr["Q"][:3], "Qc": tr["Qc"][:2]})
